@@ -41,6 +41,9 @@ type tconfig struct {
 	ClosedLen  []int64
 	MaxStreams int
 	Depth      int
+	// SETTINGS_MAX_FRAME_SIZE: the server's value at the handshake (0 = default 16384) and the values it may switch to
+	SrvMaxFrame int64
+	MaxFrameV   []int64
 }
 
 // one request of the application that uses the transport
@@ -142,6 +145,7 @@ type tworld struct {
 	trace        []string
 	keepTrace    bool
 	trMaxFrame   int64
+	advMaxFrame  int64 // the SETTINGS_MAX_FRAME_SIZE the scripted server sent last
 }
 
 func newTWorld(cfg tconfig) *tworld {
@@ -254,7 +258,13 @@ func (w *tworld) settle() {
 
 func (w *tworld) handshake(iws int64) {
 	w.settle() // preface, SETTINGS, WINDOW_UPDATE from the transport
-	w.send(h2wire.Settings(h2wire.Setting{ID: 4, Val: uint32(iws)}))
+	w.advMaxFrame = ledger.DefaultMaxFrame
+	if mf := w.cfg.SrvMaxFrame; mf > 0 {
+		w.advMaxFrame = mf
+		w.send(h2wire.Settings(h2wire.Setting{ID: 4, Val: uint32(iws)}, h2wire.Setting{ID: 5, Val: uint32(mf)}))
+	} else {
+		w.send(h2wire.Settings(h2wire.Setting{ID: 4, Val: uint32(iws)}))
+	}
 	w.send(h2wire.SettingsAck())
 	w.settle()
 	w.led.EndHandshake()
@@ -450,6 +460,11 @@ func (w *tworld) enabled() []act {
 			out = append(out, act{K: "set", N: v})
 		}
 	}
+	for _, v := range cfg.MaxFrameV {
+		if v != w.advMaxFrame {
+			out = append(out, act{K: "mfs", N: v})
+		}
+	}
 	return out
 }
 
@@ -478,6 +493,9 @@ func (w *tworld) apply(a act) {
 		w.send(h2wire.WindowUpdate(sid, uint32(a.N)))
 	case "set":
 		w.send(h2wire.Settings(h2wire.Setting{ID: 4, Val: uint32(a.N)}))
+	case "mfs":
+		w.advMaxFrame = a.N
+		w.send(h2wire.Settings(h2wire.Setting{ID: 5, Val: uint32(a.N)}))
 	case "rst":
 		w.send(h2wire.RST(id, 8))
 	case "data":
@@ -503,7 +521,7 @@ func (w *tworld) drainReads() {
 func (w *tworld) key() string {
 	var b strings.Builder
 	b.WriteString(w.led.Key())
-	fmt.Fprintf(&b, "#o%d|", w.opened)
+	fmt.Fprintf(&b, "#o%d a%d|", w.opened, w.advMaxFrame)
 	for _, i := range w.ridx() {
 		if i < w.base {
 			continue
